@@ -14,13 +14,3 @@ NOTES = ("Technique: machine-checked proof in Lean 4 about a hand-written model,
          "behavioural correspondence check (C++ harness calling the real headers under ASan/UBSan -> line protocol -> Lean driver that "
          "re-computes the model and evaluates the theorems' own predicates on the implementation's output). See DESIGN.md.")
 NOT_CLAIMED = {}
-META = {
-    "C07": dict(engine="h_date", design_ref="DESIGN.md section 3, C07",
-        technique="Lean 4 theorems (induction over the step loop, omega on the month table) + differential correspondence, exhaustive over the 400-year cycle in thorough",
-        text="Proof: the Date successors keep dates valid and strictly increasing; the Scheduler loop produces a list satisfying the TilesCalendar predicate (first start, contiguity, produced-while, last end); any list satisfying it partitions its date range and schedule_action_date returns the unique containing step or rejects; the year rule for day and one-week steps holds for every year. All for unbounded years, any start/end/unit/length in the domain. The model is tied to the code by comparing every successor over the full 400-year cycle (thorough) and random schedulers, and the theorem predicates are evaluated on the implementation's own step lists.",
-        note="Trusted: Lean kernel + propext/Classical.choice/Quot.sound; hand-written model of date.hpp/scheduling.hpp; correspondence harness and driver. int modelled as unbounded Int."),
-    "C08": dict(engine="h_date", design_ref="DESIGN.md section 3, C08",
-        technique="Lean 4 theorems (containment characterisation per builder, counting bijection) + differential correspondence with date-enumeration predicates",
-        text="Proof: for every well-formed step shorter than a year (straddling steps included) the yearly / end-of-year / monthly builders fire iff the step contains the date / a 31 December / a month end; exactly one step of a tiled calendar fires per covered occurrence; every-n, every-step, final-step, spread and weather tables are characterised by index; the frequency-name table with all rejections; simulation_step_to_action_step is a bijection from firing steps onto [0, count). The model is tied to the code on random schedulers (all builders compared bit for bit) and the complete name x unit x n table, and the containment predicates are evaluated on the implementation's output by enumerating dates.",
-        note="Trusted: as C07. Config::create_schedules wiring is covered under C09."),
-}
